@@ -70,6 +70,8 @@ class C06(Property):
         ("antismash/common/secmet/features/cdscollection.py", "CDSCollection.__init__"),
         ("antismash/common/secmet/features/cdscollection.py", "CDSCollection.__lt__"),
         ("antismash/common/secmet/features/cdscollection.py", "CDSCollection.parent"),
+        ("antismash/common/secmet/features/cdscollection.py", "CDSCollection.get_root"),
+        (R, "Record.from_biopython"),
         ("antismash/common/secmet/features/feature.py", "Feature.__init__"),
         ("antismash/common/secmet/features/feature.py", "Feature.overlaps_with"),
         ("antismash/common/secmet/features/feature.py", "Feature.is_contained_by"),
